@@ -42,6 +42,7 @@ def translate(ctx):
 # ----------------------------------------------------------------------------------------------
 INPUTS = ["", "a b c\n1 2 3\nx\n"]
 _RUN_SEQ = itertools.count()
+_HANG_CONFIRMATIONS = itertools.count()   # at most three time-outs are re-run with the long budget (a tree that hangs must not cost minutes)
 ERR_RE = re.compile(r"ERROR: CODE (\d+)( LINE \d+ COLUMN \d+)?( FILE \S+)?")
 
 
@@ -49,8 +50,19 @@ class Run:
     __slots__ = ("rc", "out", "err", "files", "dep", "cls", "code")
 
 
-def run_hawk(ctx, hawk, src_text, inp, tag, tmo=10):
-    """run `hawk -d dep -f src in.txt` in a fresh directory; returns Run (dep = deparsed text or None)"""
+OPTS_RE = re.compile(r"\A#!C17-OPTS ([^\n]*)\n")
+INC_HAWK = 'function incf(x) { return "<" x ">" }\n'
+INCS_HAWK = 'incv = incv + 1; print "inc", incv;\n'
+
+
+def prog_opts(prog):
+    """CLI options a program is to be run with (first line `#!C17-OPTS ...`); they apply to every generation"""
+    m = OPTS_RE.match(prog)
+    return m.group(1).split() if m else []
+
+
+def run_hawk(ctx, hawk, src_text, inp, tag, tmo=10, opts=()):
+    """run `hawk [opts] -d dep -f src in.txt` in a fresh directory; returns Run (dep = deparsed text or None)"""
     d = os.path.join(ctx.scratch, "r_%s_%d" % (tag, next(_RUN_SEQ)))
     shutil.rmtree(d, ignore_errors=True)
     os.makedirs(d)
@@ -58,7 +70,11 @@ def run_hawk(ctx, hawk, src_text, inp, tag, tmo=10):
         f.write(src_text)
     with open(os.path.join(d, "in.txt"), "w") as f:
         f.write(inp)
-    rc, out, err = C.sh(["timeout", "-s", "KILL", str(tmo), hawk, "-d", "dep.out", "-f", "p.hawk", "in.txt"],
+    with open(os.path.join(d, "inc.hawk"), "w") as f:
+        f.write(INC_HAWK)
+    with open(os.path.join(d, "incs.hawk"), "w") as f:
+        f.write(INCS_HAWK)
+    rc, out, err = C.sh(["timeout", "-s", "KILL", str(tmo), hawk] + list(opts) + ["-d", "dep.out", "-f", "p.hawk", "in.txt"],
                         timeout=tmo + 20, cwd=d, env=C.ASAN_ENV)
     if not os.path.exists(hawk) or (rc in (126, 127) and b"timeout: " in err):   # (a hawk program may itself exit with 126/127)
         raise RuntimeError("the hawk binary %s cannot be executed (rc=%s): %s" % (hawk, rc, err.decode(errors="replace")[:200]))
@@ -75,7 +91,7 @@ def run_hawk(ctx, hawk, src_text, inp, tag, tmo=10):
     r.dep = open(dp, encoding="utf-8", errors="surrogateescape").read() if os.path.exists(dp) else None
     files = {}
     for fn in sorted(os.listdir(d)):
-        if fn in ("p.hawk", "in.txt", "dep.out"):
+        if fn in ("p.hawk", "in.txt", "dep.out", "inc.hawk", "incs.hawk"):
             continue
         try:
             files[fn] = open(os.path.join(d, fn), "rb").read().decode(errors="replace")
@@ -126,7 +142,7 @@ NONFINITE_RE = re.compile(r"(?<![\w.\"'$@\\])-?(inf|nan)\b(?![\w(\[\"])")
 
 def differential(ctx, hawk, prog, inputs=INPUTS, tag="x"):
     v = differential0(ctx, hawk, prog, inputs, tag)
-    if not v.ok and v.kind != "sanitizer-src" and "TIMEOUT" in (v.what + v.detail):
+    if not v.ok and v.kind != "sanitizer-src" and "TIMEOUT" in (v.what + v.detail) and next(_HANG_CONFIRMATIONS) < 3:
         # many hawk processes run in parallel (and other checks may load the machine): a time-out is only believed
         # when it happens again with a six times longer budget
         v = differential0(ctx, hawk, prog, inputs, tag, tmo=60)
@@ -139,7 +155,8 @@ def differential(ctx, hawk, prog, inputs=INPUTS, tag="x"):
 
 def differential0(ctx, hawk, prog, inputs=INPUTS, tag="x", tmo=10):
     v = Verdict()
-    runs0 = [run_hawk(ctx, hawk, prog, inp, "%s_0_%d" % (tag, i), tmo) for i, inp in enumerate(inputs)]
+    opts = prog_opts(prog)
+    runs0 = [run_hawk(ctx, hawk, prog, inp, "%s_0_%d" % (tag, i), tmo, opts) for i, inp in enumerate(inputs)]
     r0 = runs0[0]
     for r in runs0:
         if r.cls in ("ASAN", "UBSAN", "TIMEOUT(hang)") or r.cls.startswith("SIGNAL"):
@@ -150,7 +167,7 @@ def differential0(ctx, hawk, prog, inputs=INPUTS, tag="x", tmo=10):
         v.detail = describe(r0)
         return v
     v.d1 = r0.dep
-    runs1 = [run_hawk(ctx, hawk, v.d1, inp, "%s_1_%d" % (tag, i), tmo) for i, inp in enumerate(inputs)]
+    runs1 = [run_hawk(ctx, hawk, v.d1, inp, "%s_1_%d" % (tag, i), tmo, opts) for i, inp in enumerate(inputs)]
     r1 = runs1[0]
     if r1.dep is None:
         v.ok = False; v.kind = "d1-rejected"
@@ -166,7 +183,7 @@ def differential0(ctx, hawk, prog, inputs=INPUTS, tag="x", tmo=10):
             v.what = "deparsed program behaves differently from the original on input #%d" % i
             v.detail = "== input ==\n%s== original ==\n%s\n== deparsed ==\n%s" % (inputs[i], describe(a), describe(b))
             return v
-    r2 = run_hawk(ctx, hawk, v.d2, inputs[-1], "%s_2" % tag, tmo)
+    r2 = run_hawk(ctx, hawk, v.d2, inputs[-1], "%s_2" % tag, tmo, opts)
     if r2.dep is None:
         v.ok = False; v.kind = "d2-rejected"
         v.what = "the deparse of the deparse is rejected by the parser (errcode %s)" % r2.code
@@ -420,6 +437,93 @@ class Gen:
                 "2 %s 2 %s (1 - 3)" % (e, e), "f1(a %s b %s c)" % (e, e), "m[c %s c %s c]" % (e, e), "$(c %s 1 %s c)" % (e, e), "a %s b %s c \" \" a %s b" % (e, e, e)]
         return out
 
+    def fam_print(self):
+        """print / printf STATEMENTS (returned as lists of statements, one list per item): 1..4 arguments with a plain,
+        compound, parenthesised-compound or call argument in every position x every output redirection (none, >, >>, |, ||)
+        x target written as a literal, a call, a concatenation (bare and parenthesised), call + concatenation, a conditional,
+        an assignment, an indexed variable.  Every item writes to its own file pf<k>.txt (directly or through `cat`), so
+        WHICH stream or file received the text is part of what is compared (stdout, stderr and every file written)."""
+        rng = self.rng
+        kinds = {"P": "a", "C": "b + 1", "R": "(b + 1)", "L": "f1(c)"}
+        extra = ["-a", "(a > b)", "(a ? 1 : 2)", "$1", '"s"', "(a)", "a b", "m[1]", "(a, b) in m", "!a", "a > b ? 1 : 2" if False else "(a b)", "1 - 3"]
+        combos = []
+        for n in (1, 2, 3):
+            combos += ["".join(c) for c in itertools.product("PCRL", repeat=n)]
+        c4 = ["".join(c) for c in itertools.product("PCRL", repeat=4)]
+        combos += [c for c in c4 if rng.random() < 0.16] + ["PRPP", "PPRP", "RPRP", "CRCP", "PRRL", "LRCP"]
+        out = []
+        k = [0]
+
+        def target(kind, mode, K):
+            base = ("pf%d.txt" % K) if mode == "file" else ("cat > pf%d.txt" % K)
+            head, tail = (("pf", ".txt") if mode == "file" else ("cat > pf", ".txt"))
+            fn = "fo" if mode == "file" else "fc"
+            pre = []
+            if kind == "lit":
+                t = '"%s"' % base
+            elif kind == "call":
+                t = "%s(%d)" % (fn, K)
+            elif kind == "cat":
+                t = '"%s" %d "%s"' % (head, K, tail)
+            elif kind == "pcat":
+                t = '("%s" %d "%s")' % (head, K, tail)
+            elif kind == "callcat":
+                t = '%s(%d) ".x"' % (fn, K)
+            elif kind == "cnd":
+                t = '(a ? "%s" : "no.txt")' % base
+            elif kind == "ass":
+                t = '(of = "%s")' % base
+            else:  # indexed variable
+                pre = ['tg[%d] = "%s"' % (K, base)]
+                t = "tg[%d]" % K
+            return pre, t
+
+        def emit(kw, args, redir, tkind, paren=False):
+            k[0] += 1
+            K = k[0]
+            al = ", ".join(args)
+            if paren:
+                al = "(%s)" % al
+            if redir is None:
+                out.append(['%s %s' % (kw, al)])
+                return
+            pre, t = target(tkind, "file" if redir in (">", ">>") else "cmd", K)
+            out.append(pre + ['%s %s %s %s' % (kw, al, redir, t)])
+
+        redirs = [">", ">>", "|", "||"]
+        for c in combos:
+            args = [kinds[x] for x in c]
+            emit("print", args, None, None)
+            for r in redirs:
+                for tk in ("lit", "call", "cat"):
+                    emit("print", args, r, tk)
+            # the rarer target forms, the all-parenthesised list, printf: one seeded choice each per argument combination
+            emit("print", args, rng.choice(redirs), rng.choice(["pcat", "callcat", "cnd", "ass", "idx"]))
+            emit("print", args, rng.choice(redirs), rng.choice(["lit", "call", "cat", "pcat", "callcat", "cnd", "ass", "idx"]), paren=True)
+            fmt = '"' + " ".join(["%s"] * len(args)) + '\\n"'
+            fmt = rng.choice([fmt, "(" + fmt + ")"])
+            emit("printf", [fmt] + args, None, None)
+            for r in redirs:
+                emit("printf", [fmt] + args, r, rng.choice(["lit", "call", "cat", "pcat", "callcat", "cnd", "ass", "idx"]))
+            emit("printf", [fmt] + args, rng.choice(redirs), rng.choice(["lit", "call", "cat"]), paren=True)
+        # other argument kinds in the non-first positions, with a plain last argument and a redirection
+        for e1 in extra:
+            for e2 in extra[:6]:
+                for r in redirs:
+                    emit("print", ["a", e1, e2, "c"], r, rng.choice(["lit", "call", "cat", "callcat"]))
+                    emit("print", [e1, "a", e2], r, rng.choice(["lit", "call", "pcat"]))
+            emit("print", [e1, e1], rng.choice(redirs), "call")
+            emit("print", [e1], rng.choice(redirs), "call")
+        # no arguments at all, and to the standard streams
+        for r in redirs:
+            emit("print", [], r, rng.choice(["lit", "call", "cat"]))
+        out += [['print a, (b + 1), c > "/dev/stderr"'], ['print a, b + 1, c > "/dev/stderr"'], ['print (a), (b), c >> "/dev/stderr"'],
+                ['printf "%s %s\\n", (a b), c > "/dev/stderr"'], ['print a, (b + 1), c > "/dev/stdout"'], ['print a, (b > c), c'],
+                ['print a, (b > c), c > "/dev/stderr"'], ['print a, b > c, c'], ['print (a > b), (b > c), c > (c > b)'], ['print a, (b, c) in m, c > fo(900)'],
+                ['print a, b, (c) > fo(901)'], ['print a, b, (c + 1) > fo(902)'], ['print a, (b), c + 1 > fo(903)'], ['print a, (b + 1) > fo(904) fo(905)'],
+                ['print a, (b + 1), c | fc(906)'], ['print a, (b + 1), c || fc(907)'], ['print a, (b + 1), c >> fo(908)'], ['print f1(a), (f1(b)), f1(c) > fo(909)']]
+        return out
+
     def fam_ternary(self):
         X = ["a", "a > b", "a = 0", "(a = 0)", "b ? c : a", "(b ? c : a)", "a b", "-a", "a++", "a in m", "(a, b) in m"]
         out = []
@@ -664,9 +768,34 @@ class ProgGen:
         return "\n".join(out) + "\n"
 
 
-FUNCS = "function f1(p0) { return p0 + 1 }\nfunction f2(p0, p1) { return p0 \"-\" p1 }\nfunction f3() { return \"f3\" }"
+FUNCS = ("function f1(p0) { return p0 + 1 }\nfunction f2(p0, p1) { return p0 \"-\" p1 }\nfunction f3() { return \"f3\" }\n"
+         "function fo(n) { return \"pf\" n \".txt\" }\nfunction fc(n) { return \"cat > pf\" n \".txt\" }")
 
 HAND_PROGRAMS = [
+    # every escape print_expr can write in "..", @b"..", '.', @b'.' - a NUL / short escape followed by a digit or hex letter -
+    # raw strings, \x without digits; the values are observed through length() and %d as well as printed
+    'BEGIN { print "r\\rf\\fb\\bv\\va\\a.", length("n\\0z"), length("a\\0001b"), "o\\101\\60", "\\u00e9", "\\xGG", length("\\x001b"), length("\\0007"), "q\\0" 7, length("\\00" "1"); '
+    'x = "a\\0001b"; y = "\\x00ff"; z = "\\1012"; print length(x), length(y), z, (x == "a\\0" "001b"), index(x, "1b"), substr(x, 3) }\n',
+    'BEGIN { u = @b"\\n\\r\\t\\f\\b\\v\\a\\0\\"\\\\x\\0001\\xff7\\0a9"; print length(u), (u == @b"\\n\\r\\t\\f\\b\\v\\a\\0\\"\\\\x\\0" @b"001\\xff7\\0" @b"a9"); '
+    'printf "%d %d %d %d %d %d\\n", \'\\0\', @b\'\\0\', @b\'\\\'\', @b\'\\\\\', \'\\\\\', \'\\\'\'; print @r"a\\nb", @rb"x\\y", @br"q\\t", length(@r"\\0001"), @b"\\0" @b"1" }\n',
+    # parameters and locals used subscripted and whole; @argv whole; comments; @include; module constants and intrinsics
+    '# leading comment\n@include "inc.hawk";\nfunction fa(p, q,   i) { @local lm, n; lm[1] = p[1]; lm["k"] = q; p[2] = lm[1] lm["k"]; for (i in lm) n++; /* c-style */ '
+    'delete lm[1]; return p[2] length(lm) n (1 in p) (7 in lm) incf(q) }\n'
+    'function va(...) { @local i, n; n = ""; for (i = 0; i < @argc; i++) n = n %% @argv[i]; return n (1 in @argv) (9 in @argv) length(@argv) }\n'
+    'BEGIN { arr[1] = "x"; print fa(arr, "y"), arr[2]; print va("p", "q", "r"); # trailing comment\n print sys::WNOHANG, sin(0), cos(0), sqrt(16), int(atan2(0, -1) * 100), exp(0), log(1), math::floor(2.5) }\n',
+    # increment after a non-variable operand (left alone), print / printf as expressions, getline followed by a call, @pragma
+    '@pragma stack_limit 9000;\n@pragma striprecspc on;\nfunction f3() { return "f3" }\nBEGIN { b = 1; x = 1 ++b; print x, b; y = 2 --b; print y, b; z = "s" ++b "t"; print z; '
+    'x = (print "pe1"); y = (printf "%s\\n", "pe2"); print x, y; if ((print "pe3" > "pe.txt") >= 0) print "ok"; z = 1 (print "pe4"); print z; w = (print "pe5", "b" > "pe.txt") + 1; print w }\n'
+    'BEGIN { x = getline f3(); print x, $0; "echo q" | getline f3(); print $0 }\n',
+    # @include inside a block; a function called (twice) before its definition; @SCRIPTNAME; exactly representable constant quotients
+    '@include "inc.hawk";\nBEGIN { @include "incs.hawk"; print incf(later(1)), later(2); { @include "incs.hawk"; print incf(3) } if (incv) { @include_once "incs.hawk"; } print incv, @SCRIPTNAME; print 2.5 / .5, 1 / 0.5, 5 / 2.5, 7.5 / 2.5 \\ 2, (1e2 / 4) % 7 }\n'
+    'function later(x) { return x * 2 }\n',
+    # other CLI modes (the options apply to every generation)
+    '#!C17-OPTS --implicit=off\n@global a, m, k, n;\nfunction h(p) { n = n + p; return n }\nBEGIN { a = fwd(0) + 1; m[1] = a; m["z"] = h(2); print a, m[1], m["z"], length(m); for (k in m) n += m[k]; print n, (1 in m) }\n{ a += NF; m[NR] = $1 }\nEND { print a, length(m), m[2] }\nfunction fwd(x) { return x }\n',
+    '#!C17-OPTS --blankconcat=off\nBEGIN { a = "x"; b = a %% "y" %% 1 + 2; print b; c = 1; d = c++ + ++c; print d, c; e = (c)--; print e %% -1, e %% (-1), -c %% "z"; print 1, (c + 1), c > "o1.txt" }\n',
+    '#!C17-OPTS --crlf=on\n@global g;\nfunction f(x) { return x 1 }\nBEGIN { g = 2; print "a", 1 + 2, f(g); if (1) { x = "b\\r\\n"; printf "%s", x } }\n/1/\n{ print NR }\nEND { print "e" }\n',
+    '#!C17-OPTS --tolerant=off --rwpipe=off\nBEGIN { m[1,2] = 1; if ((1,2) in m) print "in"; a = 3; b = (a > 2) ? "y" : "n"; print b, a || 0; print a | "cat > o1.txt"; print a, (a + 1), a > "o2.txt" }\n',
+    '#!C17-OPTS --nextofile=on -t o_t1.txt -t o_t2.txt\nNR == 1 { print "first", $0; nextofile } { print NR, $1 } END { print "end" }\n',
     # declared globals: the first / a middle / the last one is a map used subscripted and whole, in rules and functions
     '@global tab, cnt;\nfunction add(k) { tab[k]++; cnt++; return length(tab) }\nBEGIN { tab["a"] = 1; add("b"); add("a"); for (k in tab) s = s k tab[k]; print s, length(tab), cnt, ("a" in tab) }\n{ tab[$1]++ }\nEND { n = 0; for (k in tab) n += tab[k]; print n, length(tab), tab["a"], cnt; delete tab["a"]; print length(tab) }\n',
     '@global cnt, tab, last;\nBEGIN { tab[1] = 5; cnt = length(tab); last = tab[1] cnt; print cnt, last; for (k in tab) print k, tab[k] }\n{ tab[NR] = $0; last = NR }\nEND { print length(tab), last, tab[last] }\n',
@@ -994,6 +1123,13 @@ def run(ctx):
                 k += 1
                 items.append(expr_item(k, e))
             jobs.append(lambda s_, items=items, name=name: check_batch(ctx, hawk, s_, items, FUNCS, name))
+    pitems = g.fam_print()
+    if quick:
+        pitems = [it for it in pitems if rng.random() < 0.5]
+    famsize["print statements"] = len(pitems)
+    for ch in chunks(pitems, 50):
+        items = [Item(stmts, label=stmts[-1]) for stmts in ch]
+        jobs.append(lambda s_, items=items: check_batch(ctx, hawk, s_, items, FUNCS, "print statements", model=False))
     run_jobs(ctx, st, jobs)
     ctx.log("systematic part done: %s; problems so far %d" % (", ".join("%s=%d" % kv for kv in famsize.items()), len(ctx.problems)))
     # ---- random expressions and programs until the budget is used
